@@ -1795,3 +1795,10 @@ Lemma long_text_cut :
   lenN (show_args_b [] long_specs p) = 1022 /\
   ok_args (map (fun s => (s, AStr (repeat 10 97))) long_specs) (show_args_b [] long_specs p) = true.
 Proof. vm_compute. repeat split; reflexivity. Qed.
+
+(* a struct { double a, b; } passed in xmm0/xmm1 is recorded whole (after fix df3e32a) *)
+Lemma struct_sse_whole :
+  let sp := {| s_idx := 1; s_fmt := FStruct; s_size := 16; s_type := TReg; s_u := 102%Z; s_regs := [101%Z; 102%Z]; s_name := [] |} in
+  let inp := {| regs := []; xmm := [0x3ff8000000000001; 0x4002000000000002]; stk := []; rets := []; strs := []; wrds := [] |} in
+  payload (run 0 inp false [sp]) = Some (le_bytes 8 0x3ff8000000000001 ++ le_bytes 8 0x4002000000000002).
+Proof. vm_compute. reflexivity. Qed.
